@@ -147,6 +147,10 @@ pub struct ArchCase {
     /// 2 distinct at first, then the base is raised onto the patch archive's priority
     #[serde(default)]
     pub tie: u8,
+    /// COPY steps: the new content's length is adjusted so that the PTCH stream fills `align` whole sectors
+    /// exactly (0 = as generated)
+    #[serde(default)]
+    pub align: u8,
 }
 
 pub fn run(check: &Check, case: &ArchCase, origin: &str) -> CaseResult {
@@ -190,7 +194,14 @@ pub fn run(check: &Check, case: &ArchCase, origin: &str) -> CaseResult {
             let i = on.len() / 2;
             on[i] ^= 0x55;
         }
-        let pc = PatchCase { base: case.base, kind: st.kind.clone(), incl_header: st.incl_header };
+        let mut pc = PatchCase { base: case.base, kind: st.kind.clone(), incl_header: st.incl_header };
+        if case.align > 0 {
+            if let Kind::Copy { new } = &mut pc.kind {
+                let overhead = PatchCase { base: case.base, kind: Kind::Copy { new: Blob { len: 0, ..*new } }, incl_header: st.incl_header }.build_on(on.clone()).bytes.len();
+                new.len = ((case.align as usize * (512usize << case.shift)).max(overhead) - overhead) as u32;
+                check.bump("archive_patch_stream_fills_whole_sectors", 1);
+            }
+        }
         let b = pc.build_on(on);
         types.push(if pc.is_bsd0() { "BSD0" } else { "COPY" });
         let mut ptch = b.bytes.clone();
@@ -314,7 +325,7 @@ fn case_strategy() -> impl Strategy<Value = ArchCase> {
             3 => any::<u32>().prop_map(|off| Scenario::CorruptPayload { off }),
         ],
     )
-        .prop_map(|((c, len, seed), steps, shift, name, tie, scenario)| ArchCase { base: Blob { class: vcheck::gens::mpq::ALL_CLASSES[c], len, seed }, steps, shift, name, scenario, tie })
+        .prop_map(|((c, len, seed), steps, shift, name, tie, scenario)| ArchCase { base: Blob { class: vcheck::gens::mpq::ALL_CLASSES[c], len, seed }, steps, shift, name, scenario, tie, align: if seed % 5 == 0 { 1 + (seed % 3) as u8 } else { 0 } })
 }
 
 pub fn grid() -> Vec<ArchCase> {
@@ -327,14 +338,20 @@ pub fn grid() -> Vec<ArchCase> {
                 if scenario != Scenario::Plain && (i + storage as usize) % 4 != 0 {
                     continue;
                 }
-                v.push(ArchCase { base: c.base, steps: vec![Step { kind: c.kind.clone(), incl_header: c.incl_header, storage }], shift: (i % 3) as u16, name: (i * 7 + storage as usize) as u8, scenario, tie: (i % 3) as u8 });
+                v.push(ArchCase { base: c.base, steps: vec![Step { kind: c.kind.clone(), incl_header: c.incl_header, storage }], shift: (i % 3) as u16, name: (i * 7 + storage as usize) as u8, scenario, tie: (i % 3) as u8, align: 0 });
+                if scenario == Scenario::Plain && matches!(c.kind, Kind::Copy { .. }) {
+                    // the PTCH stream ends exactly on a sector boundary (1 and 2 whole sectors)
+                    for align in [1u8, 2] {
+                        v.push(ArchCase { base: c.base, steps: vec![Step { kind: c.kind.clone(), incl_header: c.incl_header, storage }], shift: (i % 3) as u16, name: (i * 7 + storage as usize) as u8, scenario, tie: 0, align });
+                    }
+                }
             }
         }
     }
     // two-step chains
     let copy = Step { kind: Kind::Copy { new: Blob { class: ContentClass::Text, len: 700, seed: 5 } }, incl_header: true, storage: 1 };
     for (i, c) in picks.iter().enumerate().filter(|(_, c)| c.is_bsd0()).take(6) {
-        v.push(ArchCase { base: c.base, steps: vec![copy.clone(), Step { kind: c.kind.clone(), incl_header: false, storage: (i % 3) as u8 }], shift: 0, name: i as u8, scenario: Scenario::Plain, tie: 0 });
+        v.push(ArchCase { base: c.base, steps: vec![copy.clone(), Step { kind: c.kind.clone(), incl_header: false, storage: (i % 3) as u8 }], shift: 0, name: i as u8, scenario: Scenario::Plain, tie: 0, align: 0 });
     }
     v
 }
